@@ -444,6 +444,12 @@ def _diff(s, ch):
                     ti, j, got[j] if j < len(got) else "<end>", ref[ti][j] if j < len(ref[ti]) else "<end>")))
         if not all(trace_state):
             viol.append(V("tracing-switched-off", str(trace_state)))
+        if k.dummy_threads:
+            # the agent asked threading.current_thread() for a thread that had already taken itself out of the registry
+            # of running threads (events of Thread._delete): python then makes up a _DummyThread and keeps it for good -
+            # threading.enumerate() / active_count() of the application differ from a run without the agent
+            viol.append(V("host-thread-registry-differs", "finished threads %s are back in threading's registry as "
+                          "dummy threads" % k.dummy_threads[:4]))
         globals_now = repr(sorted((k_, type(v_).__name__) for k_, v_ in g2.items() if not k_.startswith("__")))
         if globals_now != globals_ref:
             viol.append(V("host-globals-differ", ""))
